@@ -118,11 +118,13 @@ package enc
 //@   ensures result == alldigits(s)
 //@   loop 0: invariant 0 <= i && i <= len(s) && len(s) >= 1 && forall(k, 0, i, '0' <= s[k] && s[k] <= '9')
 //@   loop 0: decreases len(s) - i
-//@ # numeric type names are type IDs (%2); every other type name is lexed like a local name
+//@ # numeric type names that are the spelling of a number (no leading zeros) are type IDs (%2); every other type
+//@ # name -- "007" included, which LLVM would read as %7 if printed bare -- is lexed like a local name
+//@ macro canonnum(name string) bool = alldigits(name) && (len(name) == 1 || name[0] != '0')
 //@ func TypeName
-//@   props C11
+//@   props C11 C16
 //@   requires len(name) >= 1
-//@   ensures len(result) >= 2 && result[0] == '%' && ((alldigits(name) && result[1:len(result)] == name) || (!alldigits(name) && lexName(result[1:len(result)], name)))
+//@   ensures len(result) >= 2 && result[0] == '%' && ((canonnum(name) && result[1:len(result)] == name) || (!canonnum(name) && lexName(result[1:len(result)], name)))
 
 //@ # ---- quoted strings -------------------------------------------------------
 //@ # quotedLike(v): v accepts exactly the bytes printed verbatim inside "..." (everything else is \XX)
